@@ -1,2 +1,641 @@
-(* C11 — stub *)
+(* C11 — proofs about the sequential model of the sampling core (zapcore/sampler.go). *)
+From Coq Require Import List ZArith Bool Lia Arith.
+From Coq.Strings Require Import Byte.
+Import ListNotations.
 From Zap Require Import Base.Wire C11.Model.
+Open Scope Z_scope.
+
+(* ------------------------------------------------------------------ *)
+(* fixed-width arithmetic *)
+Lemma two64_pos : 0 < two64. Proof. reflexivity. Qed.
+Lemma u64_small z : 0 <= z < two64 -> u64 z = z.
+Proof. intros H. unfold u64. apply Z.mod_small. exact H. Qed.
+Lemma in_i64_iff z : in_i64 z = true <-> min64 <= z <= max64.
+Proof. unfold in_i64. rewrite andb_true_iff, !Z.leb_le. tauto. Qed.
+Lemma i64_small z : in_i64 z = true -> i64 z = z.
+Proof.
+  rewrite in_i64_iff. unfold i64, min64, max64. intros H.
+  rewrite Z.mod_small; [lia|]. unfold two63, two64 in *. lia.
+Qed.
+
+(* the code's predicate is the negation of "first N, then every Mth" *)
+Lemma keeps_dropped N M n :
+  0 <= N < two64 -> 0 <= M < two64 -> 0 <= n < two64 ->
+  dropped (u64 N) (u64 M) n = negb (keeps N M n).
+Proof.
+  intros HN HM Hn. unfold dropped, keeps. rewrite (u64_small N HN), (u64_small M HM).
+  rewrite Z.gtb_ltb, Z.ltb_antisym.
+  destruct (n <=? N) eqn:E; cbn [negb andb orb]; [reflexivity|].
+  apply Z.leb_gt in E. rewrite (u64_small (n - N)) by lia.
+  destruct (M =? 0); cbn [negb andb orb]; [reflexivity|]. reflexivity.
+Qed.
+
+(* ------------------------------------------------------------------ *)
+(* keys *)
+Lemma key_eqb_eq a b : key_eqb a b = true <-> a = b.
+Proof.
+  destruct a as [a1 [a2 a3]], b as [b1 [b2 b3]]. unfold key_eqb. cbn [fst snd].
+  rewrite !andb_true_iff, Nat.eqb_eq, !Z.eqb_eq. split.
+  - intros [-> [-> ->]]. reflexivity.
+  - intros [= -> -> ->]. auto.
+Qed.
+Lemma key_eqb_refl a : key_eqb a a = true.
+Proof. now apply key_eqb_eq. Qed.
+Lemma key_eqb_sym a b : key_eqb a b = key_eqb b a.
+Proof.
+  destruct (key_eqb a b) eqn:E1, (key_eqb b a) eqn:E2; try reflexivity.
+  - apply key_eqb_eq in E1. subst. now rewrite key_eqb_refl in E2.
+  - apply key_eqb_eq in E2. subst. now rewrite key_eqb_refl in E1.
+Qed.
+
+(* ------------------------------------------------------------------ *)
+(* window states *)
+Lemma wstate_snoc tick h t : wstate tick (h ++ [t]) = wstep tick (wstate tick h) t.
+Proof. unfold wstate. now rewrite fold_left_app. Qed.
+
+Lemma wstep_pos tick w t : 0 <= wpos w -> 1 <= wpos (wstep tick w t) <= wpos w + 1.
+Proof.
+  intros H. destruct w as [[e p]|]; cbn [wstep wpos] in *.
+  - destruct (t <? e); cbn [wpos]; lia.
+  - lia.
+Qed.
+Lemma wfold_bound tick h : forall w, 0 <= wpos w ->
+  0 <= wpos (fold_left (wstep tick) h w) <= wpos w + Z.of_nat (length h).
+Proof.
+  induction h as [|t r IH]; intros w Hw; cbn [fold_left length].
+  - lia.
+  - pose proof (wstep_pos tick w t Hw) as H1. specialize (IH (wstep tick w t)).
+    rewrite Nat2Z.inj_succ. lia.
+Qed.
+Lemma wstate_bound tick h : 0 <= wpos (wstate tick h) <= Z.of_nat (length h).
+Proof. unfold wstate. pose proof (wfold_bound tick h None). cbn [wpos] in H. lia. Qed.
+
+Lemma filter_len_le {A} (f : A -> bool) l : (length (filter f l) <= length l)%nat.
+Proof. induction l as [|x r IH]; cbn [filter length]; [lia|]. destruct (f x); cbn [length]; lia. Qed.
+Lemma hist_length k pre : (length (hist k pre) <= length pre)%nat.
+Proof. unfold hist. rewrite map_length. apply filter_len_le. Qed.
+
+Lemma hist_snoc k pre e :
+  hist k (pre ++ [e]) = hist k pre ++ (if has_key k e then [se_tn e] else []).
+Proof.
+  unfold hist. rewrite filter_app, map_app. cbn [filter]. destruct (has_key k e); reflexivity.
+Qed.
+
+(* ------------------------------------------------------------------ *)
+(* one counter cell against one window state *)
+Definition Rel (c0 c : ctr) (w : option (Z * Z)) : Prop :=
+  match w with
+  | None => c = c0
+  | Some (e, p) => resetAt c = e /\ cnt c = p
+  end.
+
+Lemma inc_step R0 tick c w t :
+  Rel {| resetAt := R0; cnt := 0 |} c w ->
+  R0 <= t -> in_i64 (t + tick) = true ->
+  0 <= wpos w -> wpos w + 1 < two64 ->
+  Rel {| resetAt := R0; cnt := 0 |} (fst (inc_check_reset tick c t)) (wstep tick w t) /\
+  snd (inc_check_reset tick c t) = wpos (wstep tick w t).
+Proof.
+  intros HR Ht Hov Hp0 Hp1. unfold inc_check_reset.
+  destruct w as [[e p]|]; cbn [Rel wstep wpos] in *.
+  - destruct HR as [He Hc]. rewrite He, Hc. rewrite Z.gtb_ltb.
+    destruct (t <? e) eqn:E; cbn [fst snd Rel wpos resetAt cnt].
+    + rewrite u64_small by lia. auto.
+    + rewrite i64_small by exact Hov. auto.
+  - subst c. cbn [resetAt cnt]. rewrite Z.gtb_ltb.
+    destruct (t <? R0) eqn:E; [apply Z.ltb_lt in E; lia|].
+    cbn [fst snd Rel wpos resetAt cnt]. rewrite i64_small by exact Hov. auto.
+Qed.
+
+(* ------------------------------------------------------------------ *)
+(* the whole run against the specification *)
+Definition spair (s : sampler) : nat * nat := (s_counts s, s_depth s).
+Definition stamps_ge (R0 : Z) (ops : list op) : bool :=
+  forallb (fun o => match o with Log e => R0 <=? e_tn e | _ => true end) ops.
+
+Section Run.
+Variable c : cfg.
+Variable R0 : Z.
+Hypothesis Hcfg : wf_cfg c = true.
+Let c0 := {| resetAt := R0; cnt := 0 |}.
+
+Definition Inv (h : heap) (pre : list sentry) : Prop :=
+  forall k, Rel c0 (h k) (wstate (c_tick c) (hist k pre)).
+
+Lemma cfg_bounds : 0 <= c_first c < two64 /\ 0 <= c_thereafter c < two64.
+Proof.
+  unfold wf_cfg in Hcfg. rewrite !andb_true_iff, !Z.leb_le in Hcfg.
+  unfold max64, two63, two64 in *. lia.
+Qed.
+
+Lemma run_spec_gen : forall ops s fam nroots pre,
+  map spair (cores s) = fam -> nalloc s = nroots -> Inv (hp s) pre ->
+  wf_ops c (length (cores s)) ops = true -> stamps_ge R0 ops = true ->
+  Z.of_nat (length pre) + Z.of_nat (length ops) < two64 ->
+  run c s ops =
+  let es := map classify_entry (resolve_from fam nroots ops) in outcomes_of (spec_decs c pre es) es.
+Proof.
+  induction ops as [|o r IH]; intros s fam nroots pre Hfam Hn HI Hwf Hge Hlen; [reflexivity|].
+  cbn [length] in Hlen. rewrite Nat2Z.inj_succ in Hlen.
+  destruct o as [e|p|].
+  - (* Log *)
+    cbn [wf_ops] in Hwf. rewrite !andb_true_iff in Hwf. destruct Hwf as [[_ Hwe] Hwr].
+    cbn [stamps_ge forallb] in Hge. rewrite andb_true_iff in Hge. destruct Hge as [Hge1 Hger].
+    apply Z.leb_le in Hge1.
+    unfold wf_entry in Hwe. rewrite andb_true_iff in Hwe. destruct Hwe as [_ Hov].
+    cbn [run step resolve_from].
+    assert (Hnth : nth (e_core e) fam (0%nat, 0%nat) = spair (nth (e_core e) (cores s) sampler0)).
+    { rewrite <- Hfam. change (0%nat, 0%nat) with (spair sampler0). apply map_nth. }
+    rewrite Hnth. set (smp := nth (e_core e) (cores s) sampler0). unfold spair. cbn [map].
+    set (re := {| r_root := s_counts smp; r_depth := s_depth smp; r_lvl := e_lvl e; r_msg := e_msg e;
+                  r_tn := e_tn e; r_en := e_en e |}).
+    set (se := classify_entry re).
+    assert (Hcls : se_cls se = if negb (e_en e) then CSkip else if level_in_range (e_lvl e)
+                               then CKey (key_of (s_counts smp) (e_lvl e) (e_msg e)) else CPass) by reflexivity.
+    assert (Htn : se_tn se = e_tn e) by reflexivity.
+    assert (Hdp : se_depth se = s_depth smp) by reflexivity.
+    clearbody se. clear re.
+    cbn [spec_decs outcomes_of]. unfold check, spec_dec. rewrite Hcls, Htn, Hdp.
+    destruct (e_en e) eqn:Een; cbn [negb] in *.
+    2:{ (* disabled: nothing happens *)
+      cbn [app outcome_of]. f_equal.
+      apply (IH {| cores := cores s; nalloc := nalloc s; hp := hp s |}); cbn [cores nalloc hp]; auto.
+      - intros k. rewrite hist_snoc. unfold has_key. rewrite Hcls, app_nil_r. apply HI.
+      - rewrite app_length. cbn [length]. lia. }
+    destruct (level_in_range (e_lvl e)) eqn:Erange.
+    2:{ (* out of range: forwarded unsampled *)
+      cbn [app outcome_of]. f_equal.
+      apply (IH {| cores := cores s; nalloc := nalloc s; hp := hp s |}); cbn [cores nalloc hp]; auto.
+      - intros k. rewrite hist_snoc. unfold has_key. rewrite Hcls, app_nil_r. apply HI.
+      - rewrite app_length. cbn [length]. lia. }
+    (* keyed *)
+    set (k0 := key_of (s_counts smp) (e_lvl e) (e_msg e)) in *.
+    pose proof (wstate_bound (c_tick c) (hist k0 pre)) as Hb.
+    pose proof (hist_length k0 pre) as Hhl.
+    destruct (inc_step R0 (c_tick c) (hp s k0) _ (e_tn e) (HI k0) Hge1 Hov) as [HR' Hn']; [lia|lia|].
+    destruct (inc_check_reset (c_tick c) (hp s k0) (e_tn e)) as [c' n] eqn:Einc. cbn [fst snd] in HR', Hn'.
+    pose proof (wstep_pos (c_tick c) (wstate (c_tick c) (hist k0 pre)) (e_tn e) (proj1 Hb)) as Hpos.
+    unfold pos_after. rewrite <- Hn' in *.
+    destruct cfg_bounds as [HN HM].
+    unfold s_first, s_thereafter. rewrite keeps_dropped by (try assumption; lia).
+    assert (HI' : Inv (upd (hp s) k0 c') (pre ++ [se])).
+    { intros k. rewrite hist_snoc. unfold has_key. rewrite Hcls, Htn.
+      unfold upd. rewrite (key_eqb_sym k0 k). destruct (key_eqb k k0) eqn:Ek.
+      - apply key_eqb_eq in Ek. subst k. rewrite wstate_snoc. exact HR'.
+      - rewrite app_nil_r. apply HI. }
+    destruct (keeps (c_first c) (c_thereafter c) n); cbn [negb app outcome_of]; f_equal;
+      (apply (IH {| cores := cores s; nalloc := nalloc s; hp := upd (hp s) k0 c' |}); cbn [cores nalloc hp]; auto;
+       rewrite app_length; cbn [length]; lia).
+  - (* With *)
+    cbn [wf_ops] in Hwf. rewrite andb_true_iff in Hwf. destruct Hwf as [_ Hwr].
+    cbn [stamps_ge forallb andb] in Hge.
+    cbn [run step resolve_from app].
+    assert (Hnth : nth p fam (0%nat, 0%nat) = spair (nth p (cores s) sampler0)).
+    { rewrite <- Hfam. change (0%nat, 0%nat) with (spair sampler0). apply map_nth. }
+    rewrite Hnth. unfold spair at 1.
+    apply (IH {| cores := cores s ++ [with_ (nth p (cores s) sampler0)]; nalloc := nalloc s; hp := hp s |});
+      cbn [cores nalloc hp]; auto.
+    + rewrite map_app, Hfam. reflexivity.
+    + rewrite app_length. cbn [length]. rewrite Nat.add_1_r. exact Hwr.
+    + lia.
+  - (* NewRoot *)
+    cbn [wf_ops] in Hwf. cbn [stamps_ge forallb andb] in Hge.
+    cbn [run step resolve_from app].
+    apply (IH {| cores := cores s ++ [new_sampler (nalloc s)]; nalloc := S (nalloc s); hp := hp s |});
+      cbn [cores nalloc hp]; auto.
+    + rewrite map_app, Hfam, Hn. reflexivity.
+    + rewrite app_length. cbn [length]. rewrite Nat.add_1_r. exact Hwf.
+    + lia.
+Qed.
+
+Lemma run_spec ops :
+  wf_ops c 1 ops = true -> stamps_ge R0 ops = true -> wf_len ops = true ->
+  run c (init_gen c0) ops = spec_outcomes c ops.
+Proof.
+  intros Hwf Hge Hlen. unfold spec_outcomes, sentries, resolve.
+  apply (run_spec_gen ops (init_gen c0) [(0%nat, 0%nat)] 1%nat []); auto.
+  - intros k. cbn. reflexivity.
+  - unfold wf_len in Hlen. apply Z.ltb_lt in Hlen. cbn [length]. lia.
+Qed.
+End Run.
+
+Lemma wf_stamps_min c ops n : wf_ops c n ops = true -> stamps_ge min64 ops = true.
+Proof.
+  revert n. induction ops as [|o r IH]; intros n H; [reflexivity|].
+  destruct o as [e|p|]; cbn [wf_ops stamps_ge forallb] in *.
+  - rewrite !andb_true_iff in H. destruct H as [[_ He] Hr].
+    unfold wf_entry in He. rewrite andb_true_iff in He. destruct He as [He _].
+    apply in_i64_iff in He. rewrite andb_true_iff. split; [apply Z.leb_le; lia|]. exact (IH n Hr).
+  - rewrite andb_true_iff in H. exact (IH _ (proj2 H)).
+  - exact (IH _ H).
+Qed.
+
+Lemma wf_run_parts c ops : wf_run c ops = true -> wf_cfg c = true /\ wf_ops c 1 ops = true /\ wf_len ops = true.
+Proof. unfold wf_run. rewrite !andb_true_iff. tauto. Qed.
+
+(* C11_sequential (fixed code: every cell starts with resetAt = MinInt64) *)
+Theorem sequential_thm c ops : wf_run c ops = true -> outcomes c ops = spec_outcomes c ops.
+Proof.
+  intros H. apply wf_run_parts in H. destruct H as [Hc [Ho Hl]].
+  unfold outcomes, init, ctr0. apply run_spec; auto. exact (wf_stamps_min c ops 1 Ho).
+Qed.
+
+(* the original code (cells start with resetAt = 0) agrees with the specification only from the epoch on *)
+Theorem sequential_orig_partial c ops :
+  wf_run c ops = true -> stamps_ge 0 ops = true -> outcomes_orig c ops = spec_outcomes c ops.
+Proof.
+  intros H Hge. apply wf_run_parts in H. destruct H as [Hc [Ho Hl]].
+  unfold outcomes_orig, init_orig, ctr0_orig. apply run_spec; auto.
+Qed.
+
+Definition C11_sequential_orig_full : Prop :=
+  forall c ops, wf_run c ops = true -> outcomes_orig c ops = spec_outcomes c ops.
+(* N = 1, M = 0, tick = 1 s; two entries of one key stamped 10 s and 5 s before the epoch: five ticks
+   apart, so each is the first of its window; the original code puts both into a "window" ending at 0
+   and drops the second *)
+Definition orig_witness_cfg : cfg := {| c_first := 1; c_thereafter := 0; c_tick := 1000000000 |}.
+Definition orig_witness_ops : list op :=
+  [Log {| e_core := 0; e_lvl := 0; e_msg := [x78]; e_tn := -10000000000; e_en := true |};
+   Log {| e_core := 0; e_lvl := 0; e_msg := [x78]; e_tn := -5000000000; e_en := true |}].
+Theorem sequential_orig_refuted : ~ C11_sequential_orig_full.
+Proof.
+  intros H. specialize (H orig_witness_cfg orig_witness_ops eq_refl).
+  vm_compute in H. discriminate H.
+Qed.
+
+(* ------------------------------------------------------------------ *)
+(* the one-pass window state is "cut into windows, number each from 1" *)
+Lemma key_decs_window N M tick e p ts :
+  key_decs N M tick (Some (e, p)) ts =
+  let '(w, rest) := take_window e ts in
+  number N M (p + 1) w ++
+  match rest with
+  | [] => []
+  | t :: r => keeps N M 1 :: key_decs N M tick (Some (t + tick, 1)) r
+  end.
+Proof.
+  revert p. induction ts as [|t r IH]; intros p; [reflexivity|].
+  cbn [key_decs take_window wstep]. destruct (t <? e) eqn:E.
+  - cbn [wpos]. rewrite IH. destruct (take_window e r) as [w rest]. reflexivity.
+  - reflexivity.
+Qed.
+Lemma key_decs_first N M tick t r :
+  key_decs N M tick None (t :: r) = keeps N M 1 :: key_decs N M tick (Some (t + tick, 1)) r.
+Proof. reflexivity. Qed.
+
+(* inside an open window the decisions are those of consecutive positions, whatever the order of the stamps *)
+Lemma key_decs_open N M tick e ts : forall p,
+  Forall (fun t => t < e) ts ->
+  key_decs N M tick (Some (e, p)) ts = map (keeps N M) (zseq (p + 1) (length ts)).
+Proof.
+  induction ts as [|t r IH]; intros p H; [reflexivity|].
+  inversion H as [|? ? Ht Hr]; subst. cbn [key_decs wstep length zseq map].
+  apply Z.ltb_lt in Ht. rewrite Ht. cbn [wpos]. now rewrite IH.
+Qed.
+
+(* entries of a single budget: the specification's decisions are [key_decs] of its stamps *)
+Lemma spec_decs_one_key c k es : forall pre,
+  Forall (fun e => se_cls e = CKey k) es ->
+  spec_decs c pre es =
+  map dec_of_bool (key_decs (c_first c) (c_thereafter c) (c_tick c) (wstate (c_tick c) (hist k pre)) (map se_tn es)).
+Proof.
+  induction es as [|e r IH]; intros pre H; [reflexivity|].
+  inversion H as [|? ? He Hr]; subst. cbn [spec_decs map key_decs].
+  unfold spec_dec. rewrite He. unfold pos_after.
+  rewrite (IH (pre ++ [e]) Hr), hist_snoc. unfold has_key. rewrite He, key_eqb_refl, wstate_snoc.
+  destruct (keeps _ _ _); reflexivity.
+Qed.
+
+(* ------------------------------------------------------------------ *)
+(* restricting a history to a set of budgets does not change the decisions inside the set *)
+Definition closed (P : sentry -> bool) : Prop :=
+  forall x y k, se_cls x = CKey k -> has_key k y = true -> P x = true -> P y = true.
+
+Lemma hist_filter P k pre x :
+  closed P -> se_cls x = CKey k -> P x = true -> hist k (filter P pre) = hist k pre.
+Proof.
+  intros HP Hx HPx. unfold hist. f_equal. induction pre as [|y r IH]; [reflexivity|].
+  cbn [filter]. destruct (has_key k y) eqn:Ey.
+  - rewrite (HP x y k Hx Ey HPx). cbn [filter]. rewrite Ey. now rewrite IH.
+  - destruct (P y); cbn [filter]; [rewrite Ey|]; exact IH.
+Qed.
+
+Lemma spec_decs_filter c P : closed P -> forall es pre,
+  map snd (filter (fun p => P (fst p)) (combine es (spec_decs c pre es))) =
+  spec_decs c (filter P pre) (filter P es).
+Proof.
+  intros HP. induction es as [|e r IH]; intros pre; [reflexivity|].
+  cbn [spec_decs combine filter fst]. destruct (P e) eqn:Ee.
+  - cbn [map snd spec_decs]. rewrite IH, filter_app. cbn [filter]. rewrite Ee. f_equal.
+    unfold spec_dec. destruct (se_cls e) as [| |k] eqn:Ec; try reflexivity.
+    now rewrite (hist_filter P k pre e HP Ec Ee).
+  - rewrite IH, filter_app. cbn [filter]. rewrite Ee, app_nil_r. reflexivity.
+Qed.
+
+Lemma has_key_closed k : closed (has_key k).
+Proof.
+  intros x y k' Hx Hy HPx. unfold has_key in *. rewrite Hx in HPx. apply key_eqb_eq in HPx. subst k'.
+  exact Hy.
+Qed.
+Definition counts_budget (e : sentry) : bool := match se_cls e with CSkip => false | _ => true end.
+Lemma counts_budget_closed : closed counts_budget.
+Proof.
+  intros x y k Hx Hy _. unfold counts_budget, has_key in *. destruct (se_cls y); try discriminate; reflexivity.
+Qed.
+
+Lemma spec_decs_length c es : forall pre, length (spec_decs c pre es) = length es.
+Proof. induction es as [|e r IH]; intros pre; cbn [spec_decs length]; [reflexivity|]. now rewrite IH. Qed.
+
+(* outcomes_of as a map over the combined list *)
+Lemma outcomes_of_combine ds es : length ds = length es ->
+  outcomes_of ds es = map (fun p => outcome_of (snd p) (se_depth (fst p))) (combine es ds).
+Proof.
+  revert es. induction ds as [|d r IH]; intros [|e es] H; try discriminate; [reflexivity|].
+  cbn [outcomes_of combine map fst snd]. f_equal. apply IH. now injection H.
+Qed.
+
+(* model-level form: the outcomes the model gives to the entries selected by a budget-closed predicate
+   are those the specification prescribes for the selected subsequence alone *)
+Theorem subsequence_thm c P ops : closed P -> wf_run c ops = true ->
+  let es := sentries ops in
+  map snd (filter (fun p => P (fst p)) (combine es (outcomes c ops))) =
+  outcomes_of (spec_decs c [] (filter P es)) (filter P es).
+Proof.
+  intros HP Hwf es. rewrite (sequential_thm c ops Hwf). unfold spec_outcomes. fold es.
+  pose proof (spec_decs_filter c P HP es []) as Hf. cbn [filter] in Hf. rewrite <- Hf. clear Hf.
+  pose proof (spec_decs_length c es []) as Hl.
+  rewrite outcomes_of_combine by exact Hl.
+  revert Hl. generalize (spec_decs c [] es). clear Hwf. induction es as [|e r IH]; intros [|d ds] Hlen; try discriminate; [reflexivity|].
+  cbn [combine map filter fst snd]. destruct (P e) eqn:Ee; cbn [map snd combine filter fst outcomes_of].
+  - f_equal. apply IH. cbn [length] in Hlen. lia.
+  - apply IH. cbn [length] in Hlen. lia.
+Qed.
+
+(* entries at disabled levels: no hook call, not forwarded *)
+Theorem disabled_silent c ops : wf_run c ops = true ->
+  Forall (fun p => se_cls (fst p) = CSkip -> snd p = {| o_hooks := []; o_fwd := false; o_ctx := 0 |})
+         (combine (sentries ops) (outcomes c ops)).
+Proof.
+  intros Hwf. rewrite (sequential_thm c ops Hwf). unfold spec_outcomes.
+  generalize (@nil sentry). induction (sentries ops) as [|e r IH]; intros pre; cbn [spec_decs outcomes_of combine]; constructor.
+  - cbn [fst snd]. intros He. unfold spec_dec. rewrite He. reflexivity.
+  - apply IH.
+Qed.
+(* entries at enabled out-of-range levels: forwarded, no hook call *)
+Theorem out_of_range_pass c ops : wf_run c ops = true ->
+  Forall (fun p => se_cls (fst p) = CPass -> snd p = {| o_hooks := []; o_fwd := true; o_ctx := se_depth (fst p) |})
+         (combine (sentries ops) (outcomes c ops)).
+Proof.
+  intros Hwf. rewrite (sequential_thm c ops Hwf). unfold spec_outcomes.
+  generalize (@nil sentry). induction (sentries ops) as [|e r IH]; intros pre; cbn [spec_decs outcomes_of combine]; constructor.
+  - cbn [fst snd]. intros He. unfold spec_dec. rewrite He. reflexivity.
+  - apply IH.
+Qed.
+(* every entry: at most one hook call, and it carries the decision that was applied *)
+Definition hook_matches (o : outcome) : bool :=
+  match o_hooks o with
+  | [] => true                                   (* undecided: skipped or passed unsampled *)
+  | [d] => if o_fwd o then d =? LogSampled else d =? LogDropped
+  | _ => false
+  end.
+Theorem hook_once c ops : wf_run c ops = true -> forallb hook_matches (outcomes c ops) = true.
+Proof.
+  intros Hwf. rewrite (sequential_thm c ops Hwf). unfold spec_outcomes.
+  generalize (@nil sentry). induction (sentries ops) as [|e r IH]; intros pre; cbn [spec_decs outcomes_of forallb]; [reflexivity|].
+  rewrite IH, andb_true_r. destruct (spec_dec c pre e); reflexivity.
+Qed.
+
+(* ------------------------------------------------------------------ *)
+(* hash-colliding messages share a budget: only the bucket of a message matters *)
+Definition rename (f : bytes -> bytes) (o : op) : op :=
+  match o with
+  | Log e => Log {| e_core := e_core e; e_lvl := e_lvl e; e_msg := f (e_msg e); e_tn := e_tn e; e_en := e_en e |}
+  | _ => o
+  end.
+Lemma sentries_rename f : (forall m, bucket (f m) = bucket m) ->
+  forall ops fam n, map classify_entry (resolve_from fam n (map (rename f) ops)) = map classify_entry (resolve_from fam n ops).
+Proof.
+  intros Hf. induction ops as [|o r IH]; intros fam n; [reflexivity|].
+  destruct o as [e|p|]; cbn [map rename resolve_from].
+  - cbn [e_core e_lvl e_msg e_tn e_en]. destruct (nth (e_core e) fam (0%nat, 0%nat)) as [root depth].
+    cbn [map]. rewrite IH. f_equal.
+    unfold classify_entry, classify. cbn [r_en r_lvl r_root r_msg r_tn r_depth]. now rewrite Hf.
+  - destruct (nth p fam (0%nat, 0%nat)) as [root depth]. apply IH.
+  - apply IH.
+Qed.
+Lemma wf_ops_rename c f : forall ops n, wf_ops c n (map (rename f) ops) = wf_ops c n ops.
+Proof.
+  induction ops as [|o r IH]; intros n; [reflexivity|].
+  destruct o as [e|p|]; cbn [map rename wf_ops]; rewrite IH; reflexivity.
+Qed.
+Theorem collide_share c f ops : (forall m, bucket (f m) = bucket m) -> wf_run c ops = true ->
+  outcomes c (map (rename f) ops) = outcomes c ops.
+Proof.
+  intros Hf Hwf. rewrite (sequential_thm c ops Hwf). rewrite sequential_thm.
+  - unfold spec_outcomes, sentries, resolve. now rewrite (sentries_rename f Hf).
+  - unfold wf_run, wf_len in *. now rewrite wf_ops_rename, map_length.
+Qed.
+
+(* ------------------------------------------------------------------ *)
+(* cores derived by With share their parent's budget: with a single NewSamplerWithOptions, logging
+   through any derived core gives the decisions obtained by logging everything through the parent *)
+Definition via_parent (o : op) : op :=
+  match o with
+  | Log e => Log {| e_core := 0; e_lvl := e_lvl e; e_msg := e_msg e; e_tn := e_tn e; e_en := e_en e |}
+  | _ => o
+  end.
+Definition no_new_root (ops : list op) : bool := forallb (fun o => match o with NewRoot => false | _ => true end) ops.
+Definition decided (o : outcome) : list Z * bool := (o_hooks o, o_fwd o).
+Definition cls_tn (e : sentry) : cls * Z := (se_cls e, se_tn e).
+
+Lemma sentries_via_parent : forall ops fam n,
+  Forall (fun p => fst p = 0%nat) fam -> no_new_root ops = true ->
+  map cls_tn (map classify_entry (resolve_from fam n (map via_parent ops))) =
+  map cls_tn (map classify_entry (resolve_from fam n ops)).
+Proof.
+  induction ops as [|o r IH]; intros fam n Hfam Hn; [reflexivity|].
+  cbn [no_new_root forallb] in Hn. rewrite andb_true_iff in Hn. destruct Hn as [Ho Hr].
+  assert (Hnth : forall i, fst (nth i fam (0%nat, 0%nat)) = 0%nat).
+  { intros i. destruct (nth_in_or_default i fam (0%nat, 0%nat)) as [Hin | ->]; [|reflexivity].
+    rewrite Forall_forall in Hfam. now apply Hfam. }
+  destruct o as [e|p|]; cbn [map via_parent resolve_from]; [| |discriminate].
+  - cbn [e_core e_lvl e_msg e_tn e_en].
+    pose proof (Hnth (e_core e)) as H1. pose proof (Hnth 0%nat) as H2.
+    destruct (nth (e_core e) fam (0%nat, 0%nat)) as [root depth].
+    destruct (nth 0 fam (0%nat, 0%nat)) as [root' depth']. cbn [fst] in H1, H2. subst root root'.
+    cbn [map]. rewrite (IH fam n Hfam Hr). f_equal.
+  - pose proof (Hnth p) as H1. destruct (nth p fam (0%nat, 0%nat)) as [root depth]. cbn [fst] in H1. subst root.
+    apply IH; [|exact Hr]. apply Forall_app. split; [exact Hfam|]. constructor; [reflexivity|constructor].
+Qed.
+Lemma wf_ops_via_parent c : forall ops n, (0 < n)%nat -> wf_ops c n ops = true -> wf_ops c n (map via_parent ops) = true.
+Proof.
+  induction ops as [|o r IH]; intros n Hn H; [reflexivity|].
+  destruct o as [e|p|]; cbn [map via_parent wf_ops] in *.
+  - rewrite !andb_true_iff in *. destruct H as [[_ He] Hr]. repeat split; auto.
+    + apply Nat.ltb_lt. cbn [e_core]. exact Hn.
+  - rewrite andb_true_iff in *. destruct H as [Hp Hr]. split; [exact Hp|]. apply IH; [lia|exact Hr].
+  - apply IH; [lia|exact H].
+Qed.
+
+(* decisions (hooks, forwarded) depend only on the classes and stamps of the entries *)
+Lemma spec_decs_cls_tn c : forall es1 es2 pre1 pre2,
+  map cls_tn es1 = map cls_tn es2 -> map cls_tn pre1 = map cls_tn pre2 ->
+  spec_decs c pre1 es1 = spec_decs c pre2 es2.
+Proof.
+  assert (Hh : forall k pre1 pre2, map cls_tn pre1 = map cls_tn pre2 -> hist k pre1 = hist k pre2).
+  { intros k. induction pre1 as [|x r IH]; intros [|y r2] H; try discriminate; [reflexivity|].
+    cbn [map] in H. pose proof (f_equal (@tl _) H) as Hr. pose proof (f_equal (hd (cls_tn x)) H) as Hxy.
+    cbn [hd tl] in Hxy, Hr. unfold cls_tn in Hxy. injection Hxy as Hc Ht.
+    assert (Hk : has_key k x = has_key k y) by (unfold has_key; now rewrite Hc).
+    unfold hist in *. cbn [filter]. rewrite Hk.
+    destruct (has_key k y); cbn [map]; rewrite (IH r2 Hr); [now rewrite Ht|reflexivity]. }
+  induction es1 as [|x r IH]; intros [|y r2] pre1 pre2 H Hp; try discriminate; [reflexivity|].
+  cbn [map] in H. pose proof (f_equal (@tl _) H) as Hr. pose proof (f_equal (hd (cls_tn x)) H) as Hxy.
+  cbn [hd tl] in Hxy, Hr. cbn [spec_decs]. f_equal.
+  - unfold cls_tn in Hxy. injection Hxy as Hc Ht. unfold spec_dec. rewrite Hc, Ht.
+    destruct (se_cls y) as [| |k]; try reflexivity. now rewrite (Hh k pre1 pre2 Hp).
+  - apply IH; [exact Hr|]. rewrite !map_app. cbn [map]. now rewrite Hp, Hxy.
+Qed.
+Lemma decided_outcomes_of ds : forall es1 es2, length es1 = length es2 ->
+  map decided (outcomes_of ds es1) = map decided (outcomes_of ds es2).
+Proof.
+  induction ds as [|d r IH]; intros [|x es1] [|y es2] H; try discriminate; try reflexivity.
+  cbn [outcomes_of map]. f_equal; [destruct d; reflexivity|]. apply IH. now injection H.
+Qed.
+
+Theorem with_shares c ops : no_new_root ops = true -> wf_run c ops = true ->
+  map decided (outcomes c ops) = map decided (outcomes c (map via_parent ops)).
+Proof.
+  intros Hn Hwf. rewrite (sequential_thm c ops Hwf). rewrite sequential_thm.
+  2:{ unfold wf_run, wf_len in *. rewrite !andb_true_iff in *. destruct Hwf as [[Hc Ho] Hl].
+      rewrite map_length. repeat split; auto. apply wf_ops_via_parent; [lia|exact Ho]. }
+  unfold spec_outcomes, sentries, resolve.
+  pose proof (sentries_via_parent ops [(0%nat, 0%nat)] 1%nat) as H.
+  specialize (H ltac:(constructor; [reflexivity|constructor]) Hn).
+  rewrite (spec_decs_cls_tn c _ _ [] [] (eq_sym H) eq_refl).
+  apply decided_outcomes_of.
+  apply (f_equal (@length _)) in H. rewrite !map_length in H. rewrite !map_length. now rewrite H.
+Qed.
+
+(* ------------------------------------------------------------------ *)
+(* wire *)
+Lemma sx_eqb_refl s : sx_eqb s s = true.
+Proof.
+  revert s. fix IH 1. intros [z|b|l]; cbn.
+  - apply Z.eqb_refl.
+  - now apply bytes_eqb_eq.
+  - induction l as [|a r IHr]; [reflexivity|]. now rewrite IH, IHr.
+Qed.
+
+(* splitting a history into a prefix and a batch *)
+Fixpoint fam_after (fam : list (nat * nat)) (n : nat) (ops : list op) : list (nat * nat) * nat :=
+  match ops with
+  | [] => (fam, n)
+  | Log _ :: r => fam_after fam n r
+  | With p :: r => let '(root, depth) := nth p fam (0%nat, 0%nat) in fam_after (fam ++ [(root, S depth)]) n r
+  | NewRoot :: r => fam_after (fam ++ [(n, 0%nat)]) (S n) r
+  end.
+Lemma resolve_from_app a : forall fam n b,
+  resolve_from fam n (a ++ b) =
+  resolve_from fam n a ++ resolve_from (fst (fam_after fam n a)) (snd (fam_after fam n a)) b.
+Proof.
+  induction a as [|o r IH]; intros fam n b; [reflexivity|].
+  destruct o as [e|p|]; cbn [app resolve_from fam_after].
+  - destruct (nth (e_core e) fam (0%nat, 0%nat)) as [root depth]. cbn [app]. now rewrite IH.
+  - destruct (nth p fam (0%nat, 0%nat)) as [root depth]. apply IH.
+  - apply IH.
+Qed.
+Lemma resolve_from_length a : forall fam n, length (resolve_from fam n a) = n_logs a.
+Proof.
+  unfold n_logs. induction a as [|o r IH]; intros fam n; [reflexivity|].
+  destruct o as [e|p|]; cbn [resolve_from filter is_log].
+  - destruct (nth (e_core e) fam (0%nat, 0%nat)) as [root depth]. cbn [length]. now rewrite IH.
+  - destruct (nth p fam (0%nat, 0%nat)) as [root depth]. apply IH.
+  - apply IH.
+Qed.
+Lemma sentries_app pre batch :
+  exists X, sentries (pre ++ batch) = sentries pre ++ X /\ length (sentries pre) = n_logs pre.
+Proof.
+  unfold sentries, resolve. rewrite resolve_from_app, map_app. eexists. split; [reflexivity|].
+  rewrite map_length. apply resolve_from_length.
+Qed.
+Lemma skipn_len_app {A} (l1 l2 : list A) : skipn (length l1) (l1 ++ l2) = l2.
+Proof. induction l1 as [|x r IH]; [reflexivity|]. exact IH. Qed.
+Lemma firstn_len_app {A} (l1 l2 : list A) : firstn (length l1) (l1 ++ l2) = l1.
+Proof. induction l1 as [|x r IH]; cbn [length firstn app]; [now destruct l2|]. now rewrite IH. Qed.
+Lemma spec_decs_app c a : forall p b, spec_decs c p (a ++ b) = spec_decs c p a ++ spec_decs c (p ++ a) b.
+Proof.
+  induction a as [|e r IH]; intros p b; cbn [app spec_decs]; [now rewrite app_nil_r|].
+  rewrite IH, <- app_assoc. reflexivity.
+Qed.
+Lemma outcomes_of_app d1 : forall e1 d2 e2, length d1 = length e1 ->
+  outcomes_of (d1 ++ d2) (e1 ++ e2) = outcomes_of d1 e1 ++ outcomes_of d2 e2.
+Proof.
+  induction d1 as [|d r IH]; intros [|e e1] d2 e2 H; try discriminate; [reflexivity|].
+  cbn [app outcomes_of]. f_equal. apply IH. cbn [length] in H. lia.
+Qed.
+Lemma outcomes_of_length ds : forall es, length ds = length es -> length (outcomes_of ds es) = length es.
+Proof.
+  induction ds as [|d r IH]; intros [|e es] H; try discriminate; [reflexivity|].
+  cbn [outcomes_of length]. f_equal. apply IH. cbn [length] in H. lia.
+Qed.
+Lemma spec_outcomes_app c pre batch X : sentries (pre ++ batch) = sentries pre ++ X ->
+  spec_outcomes c (pre ++ batch) = spec_outcomes c pre ++ outcomes_of (spec_decs c (sentries pre) X) X.
+Proof.
+  intros H. unfold spec_outcomes. rewrite H, spec_decs_app. cbn [app].
+  apply outcomes_of_app. apply spec_decs_length.
+Qed.
+Lemma spec_outcomes_length c ops : length (spec_outcomes c ops) = length (sentries ops).
+Proof. unfold spec_outcomes. apply outcomes_of_length, spec_decs_length. Qed.
+
+Lemma has_key_cls k e : has_key k e = true -> se_cls e = CKey k.
+Proof.
+  unfold has_key. destruct (se_cls e) as [| |k']; try discriminate. intros H. apply key_eqb_eq in H. now subst.
+Qed.
+Lemma key_decs_length N M tick ts : forall w, length (key_decs N M tick w ts) = length ts.
+Proof. induction ts as [|t r IH]; intros w; cbn [key_decs length]; [reflexivity|]. now rewrite IH. Qed.
+
+(* canonical batch records depend only on (hooks, forwarded) of the records *)
+Lemma canon_short l1 : forall l2, map decided l1 = map decided l2 ->
+  map enc_short (canon l1) = map enc_short (canon l2).
+Proof.
+  assert (H : forall (f : outcome -> bool), (forall a b, decided a = decided b -> f a = f b) ->
+            forall la lb, map decided la = map decided lb -> map enc_short (filter f la) = map enc_short (filter f lb)).
+  { intros f Hf la. induction la as [|a r IH]; intros [|b r2] E; try discriminate; [reflexivity|].
+    cbn [map] in E. pose proof (f_equal (@tl _) E) as Er. pose proof (f_equal (hd (decided a)) E) as Eh. cbn [hd tl] in Eh, Er.
+    cbn [filter]. rewrite (Hf a b Eh). destruct (f b); cbn [map]; rewrite (IH r2 Er); [|reflexivity].
+    f_equal. unfold decided in Eh. injection Eh as E1 E2. unfold enc_short. now rewrite E1, E2. }
+  intros l2 E. unfold canon. rewrite !map_app. f_equal; apply H; auto.
+  - intros a b Hab. unfold decided in Hab. now injection Hab.
+  - intros a b Hab. unfold decided in Hab. injection Hab as _ Hf. now rewrite Hf.
+Qed.
+Lemma decided_outcomes_bool bs : forall X, length bs = length X ->
+  map decided (outcomes_of (map dec_of_bool bs) X) = map decided (map (fun b => outcome_of (dec_of_bool b) 0) bs).
+Proof.
+  induction bs as [|b r IH]; intros [|x X] H; try discriminate; [reflexivity|].
+  cbn [map outcomes_of]. f_equal; [destruct b; reflexivity|]. apply IH. cbn [length] in H. lia.
+Qed.
+
+Theorem spec_model i : wf i = true -> spec i (model i) = true.
+Proof.
+  unfold wf, spec, model. destruct (is_conc i).
+  - rewrite andb_true_iff. intros [Hwf Hwin]. rewrite Hwf, Hwin. cbn [negb andb].
+    set (c := dec_cfg i) in *. set (pre := dec_ops (sx_nth i 4)) in *. set (batch := dec_ops (sx_nth i 5)) in *.
+    rewrite (sequential_thm _ _ Hwf).
+    destruct (sentries_app pre batch) as [X [HX Hlen]].
+    rewrite (spec_outcomes_app c pre batch X HX). unfold enc_obs.
+    assert (Hl : n_logs pre = length (spec_outcomes c pre)) by (rewrite spec_outcomes_length; now rewrite Hlen).
+    rewrite Hl, firstn_len_app, skipn_len_app.
+    assert (Hb : map enc_short (canon (outcomes_of (spec_decs c (sentries pre) X) X)) = map enc_short (conc_expected c pre batch)).
+    { unfold conc_expected, batch_in_window in *. apply andb_true_iff in Hwin. destruct Hwin as [_ Hwin].
+      rewrite HX, <- Hlen, skipn_len_app in *. destruct X as [|e0 r]; [reflexivity|].
+      destruct (se_cls e0) as [| |k] eqn:Ecls; try discriminate Hwin.
+      destruct (wstate (c_tick c) (hist k (sentries pre))) as [[end_ p]|] eqn:Ew; [|discriminate Hwin].
+      assert (HF : Forall (fun e => se_cls e = CKey k) (e0 :: r)).
+      { rewrite forallb_forall in Hwin. apply Forall_forall. intros e He. specialize (Hwin e He).
+        apply andb_true_iff in Hwin. apply has_key_cls. exact (proj1 Hwin). }
+      rewrite (spec_decs_one_key c k (e0 :: r) (sentries pre) HF), Ew.
+      apply canon_short. apply decided_outcomes_bool. rewrite key_decs_length. apply map_length. }
+    rewrite Hb. apply sx_eqb_refl.
+  - intros Hwf. rewrite Hwf. cbn [negb]. rewrite (sequential_thm _ _ Hwf). apply sx_eqb_refl.
+Qed.
